@@ -822,10 +822,15 @@ func staticCycles(fns []*ssa.Function) []string {
 				w := stack[len(stack)-1]
 				stack = stack[:len(stack)-1]
 				on[w] = false
-				comp = append(comp, fname(fns[w]))
+				if !isNewFunc(fns[w]) {
+					comp = append(comp, fname(fns[w])) // helpers newer than the rules are part of their callers' cycle
+				}
 				if w == v {
 					break
 				}
+			}
+			if len(comp) == 0 {
+				comp = append(comp, fname(fns[v]))
 			}
 			self := false
 			for _, w := range adj[v] {
@@ -833,7 +838,7 @@ func staticCycles(fns []*ssa.Function) []string {
 					self = true
 				}
 			}
-			if len(comp) > 1 || self {
+			if len(comp) > 1 || self || isNewFunc(fns[v]) && len(comp) >= 1 && comp[0] != fname(fns[v]) {
 				sort.Strings(comp)
 				out = append(out, strings.Join(comp, "+"))
 			}
